@@ -65,6 +65,26 @@ Theorem C19_load_into_used_object :
 Proof. exact load_ignores_contents. Qed.
 Print Assumptions C19_load_into_used_object.
 
+(* when the input passes the identification stage (16 bytes, magic, class, byte order) the previous header does not
+   matter either: the load is a function of the input, the translator, and nothing else of the object's past *)
+Theorem C19_load_into_used_object_any_header :
+  forall junk el1 el2 k content lazy,
+    el_xlat el1 = el_xlat el2 -> el_pos el1 = el_pos el2 -> el_compr el1 = el_compr el2 ->
+    ident_accepted (el_xlat el1) k content = true ->
+    load junk el1 k content lazy = load junk el2 k content lazy.
+Proof. exact load_ignores_header. Qed.
+Print Assumptions C19_load_into_used_object_any_header.
+
+(* the hypothesis cannot be dropped: an input refused at the identification stage leaves the previous header
+   behind. This is the open finding refused-load-keeps-header, replayed on the library by corpus/C19/refused_load_keeps_header.script *)
+Theorem C19_refuted_refused_load_forgets_header :
+  exists el1 el2 k content lazy,
+    el_xlat el1 = el_xlat el2 /\ el_pos el1 = el_pos el2 /\ el_compr el1 = el_compr el2 /\
+    el_secs el1 = el_secs el2 /\ el_segs el1 = el_segs el2 /\
+    load (fun _ => 0) el1 k content lazy <> load (fun _ => 0) el2 k content lazy.
+Proof. exact load_refused_keeps_header_refuted. Qed.
+Print Assumptions C19_refuted_refused_load_forgets_header.
+
 Definition with_pos_example : elfio := mkElfio (Some (new_header C64 LSB)) [] [] [(1, 2, 3)] 99 false None.
 Example C19_example :
   let w := obj_put (mkWorld (empty_elfio true)) 7 (with_pos_example, [], [3]) in
